@@ -18,9 +18,11 @@ import (
 	"time"
 
 	v1 "k8s.io/api/core/v1"
+	resourceapi "k8s.io/api/resource/v1"
 	"k8s.io/apimachinery/pkg/runtime"
 	k8stesting "k8s.io/client-go/testing"
 
+	commonresources "github.com/NVIDIA/KAI-scheduler/pkg/common/resources"
 	"github.com/NVIDIA/KAI-scheduler/pkg/scheduler/actions"
 	"github.com/NVIDIA/KAI-scheduler/pkg/scheduler/api"
 	"github.com/NVIDIA/KAI-scheduler/pkg/scheduler/api/eviction_info"
@@ -63,6 +65,48 @@ type Event struct {
 	Injected     bool     `json:"injected,omitempty"`    // the error was injected by the harness
 	Stmt         int64    `json:"stmt,omitempty"`        // statement commit id (0 = outside a commit)
 	Message      string   `json:"message,omitempty"`
+	// Claims: the ResourceClaim allocations the call carries (PodInfo.ResourceClaimInfo, which Cache.Bind copies into
+	// BindRequest.Spec.ResourceClaimAllocations), one entry per pod.spec.resourceClaims reference
+	Claims []ClaimAlloc `json:"claims,omitempty"`
+}
+
+// ClaimAlloc is one ResourceClaim allocation carried by a Bind / TaskPipelined call.
+type ClaimAlloc struct {
+	PodClaim string   `json:"podClaim"`          // pod.spec.resourceClaims[].name
+	Claim    string   `json:"claim,omitempty"`   // name of the ResourceClaim object ("" = not resolvable)
+	Devices  []string `json:"devices,omitempty"` // driver/pool/device, sorted; empty = no allocation
+}
+
+// DeviceIDs returns the sorted driver/pool/device ids of an allocation result.
+func DeviceIDs(a *resourceapi.AllocationResult) []string {
+	if a == nil {
+		return nil
+	}
+	var out []string
+	for _, d := range a.Devices.Results {
+		out = append(out, d.Driver+"/"+d.Pool+"/"+d.Device)
+	}
+	sort.Strings(out)
+	return out
+}
+
+func claimAllocs(t *pod_info.PodInfo) []ClaimAlloc {
+	if t.Pod == nil || len(t.Pod.Spec.ResourceClaims) == 0 {
+		return nil
+	}
+	var out []ClaimAlloc
+	for i := range t.Pod.Spec.ResourceClaims {
+		pc := &t.Pod.Spec.ResourceClaims[i]
+		ca := ClaimAlloc{PodClaim: pc.Name}
+		if n, err := commonresources.GetResourceClaimName(t.Pod, pc); err == nil {
+			ca.Claim = n
+		}
+		if info, ok := t.ResourceClaimInfo[pc.Name]; ok && info != nil {
+			ca.Devices = DeviceIDs(info.Allocation)
+		}
+		out = append(out, ca)
+	}
+	return out
 }
 
 func (e *Event) Key() string { return e.NS + "/" + e.Pod }
@@ -97,6 +141,7 @@ func podEvent(kind string, t *pod_info.PodInfo) Event {
 	e := Event{Kind: kind, NS: t.Namespace, Pod: t.Name, UID: string(t.UID), Group: string(t.Job), Sub: t.SubGroupName,
 		Node: t.NodeName, GPUGroups: append([]string(nil), t.GPUGroups...), ReceivedType: string(t.ResourceReceivedType),
 		PrevStatus: t.Status.String()}
+	e.Claims = claimAllocs(t)
 	if t.AcceptedResource != nil {
 		e.AccGPUs = t.AcceptedResource.GPUs()
 		e.AccGPUMem = t.AcceptedResource.GpuMemory()
@@ -396,6 +441,21 @@ func (r *Runner) listersInSync(c cache.Cache) bool {
 			return false
 		}
 	}
+	if r.St.DRAEnabled() {
+		claims, err := dl.ListResourceClaims()
+		if err != nil || len(claims) != len(o.ResourceClaims) {
+			return false
+		}
+		sc := map[string]obj{}
+		for _, c := range o.ResourceClaims {
+			sc[metaKey(c)] = c
+		}
+		for _, c := range claims {
+			if q, ok := sc[metaKey(c)]; !ok || !same(c, q) {
+				return false
+			}
+		}
+	}
 	// every BindRequest of the store must be visible unless the node-pool selector hides it
 	if r.Params.PartitionParams == nil || r.Params.PartitionParams.NodePoolLabelKey == "" {
 		if len(brs) != len(o.BindRequests) || len(nodes) != len(o.Nodes) || len(pgs) != len(o.PodGroups) {
@@ -405,10 +465,64 @@ func (r *Runner) listersInSync(c cache.Cache) bool {
 	return true
 }
 
+// draInSync: the DRA manager of the cache has seen every ResourceClaim (by resourceVersion), ResourceSlice and
+// DeviceClass of the store; for a cache that has not opened a session yet also: the allocated-device set is exactly
+// the set of devices allocated in the store.
+func (r *Runner) draInSync(c cache.Cache, fresh bool) bool {
+	pl := c.InternalK8sPlugins()
+	if pl == nil || pl.FrameworkHandle == nil {
+		return true
+	}
+	mgr := pl.FrameworkHandle.SharedDRAManager()
+	if mgr == nil {
+		return true
+	}
+	o := r.St.ReadAll()
+	claims, err := mgr.ResourceClaims().List()
+	if err != nil || len(claims) != len(o.ResourceClaims) {
+		return false
+	}
+	want := map[string]bool{}
+	for _, sc := range o.ResourceClaims {
+		got, err := mgr.ResourceClaims().Get(sc.Namespace, sc.Name)
+		if err != nil || got.ResourceVersion != sc.ResourceVersion {
+			return false
+		}
+		for _, d := range DeviceIDs(sc.Status.Allocation) {
+			want[d] = true
+		}
+	}
+	if sl, err := mgr.ResourceSlices().ListWithDeviceTaintRules(); err != nil || len(sl) != len(o.ResourceSlices) {
+		return false
+	}
+	if dc, err := mgr.DeviceClasses().List(); err != nil || len(dc) != len(o.DeviceClasses) {
+		return false
+	}
+	if fresh {
+		st, err := mgr.ResourceClaims().GatherAllocatedState()
+		if err != nil || st == nil || st.AllocatedDevices.Len() != len(want) {
+			return false
+		}
+		for id := range st.AllocatedDevices {
+			if !want[id.String()] {
+				return false
+			}
+		}
+	} else {
+		time.Sleep(2 * time.Millisecond) // the handler of the last delivered event may still be running
+	}
+	return true
+}
+
 func NewRunner(st *store.Store, c *spec.Case, rng *rand.Rand, hooks Hooks) (*Runner, error) {
 	cfg, params, err := BuildConf(&c.Config, hooks.Extra)
 	if err != nil {
 		return nil, err
+	}
+	if c.Objects.HasDRA() {
+		// the API server of a cluster with DRA objects serves resource.k8s.io: every cache.New of this case switches
+		// the DynamicResourceAllocation gate on (cases without DRA objects keep the gate off, as before)
+		st.EnableDRA()
 	}
 	r := &Runner{St: st, Cfg: cfg, Params: params, Faults: c.Faults, Rng: rng, Hooks: hooks}
 	r.installFaultHooks()
@@ -467,9 +581,11 @@ func (r *Runner) Cycle() (res *CycleResult) {
 	}
 	var real cache.Cache
 	var stop chan struct{}
+	fresh := false
 	if r.Persistent && r.pcache != nil {
 		real, stop = r.pcache, r.pstop
 	} else {
+		fresh = true
 		real = cache.New(params)
 		stop = make(chan struct{})
 		real.Run(stop)
@@ -486,6 +602,18 @@ func (r *Runner) Cycle() (res *CycleResult) {
 				break
 			}
 			time.Sleep(2 * time.Millisecond)
+		}
+	}
+	if r.St.DRAEnabled() {
+		// no informer lag is modelled for DRA objects either: the claim informer feeds the DRA manager's assume cache
+		// and, through it, the allocated-device set by event handlers that WaitForCacheSync does not wait for
+		deadline := time.Now().Add(3 * time.Second)
+		for !r.draInSync(real, fresh) {
+			if time.Now().After(deadline) {
+				res.NotSynced = true
+				break
+			}
+			time.Sleep(time.Millisecond)
 		}
 	}
 	rc := &RecCache{Cache: real, Cycle: r.cycle, rng: r.Rng, faults: r.Faults, OnEvent: r.Hooks.OnEvent}
